@@ -321,6 +321,10 @@ def corpus_case(line):
 
 
 # ---- qsieve64 inside the model (props/c03_qs64.py)
+CLAIM = CLAIM + (" || Two sub-algorithms are inside the model end to end: qsieve64::qsieve (11 theorems, Props/C03Qs64.lean: every relation handed to "
+                 "final_step is a congruence; no panic site BEFORE the call of final_step for every n factor() can pass; a returned pair is a proper split; "
+                 "no-panic of final_step itself on these relations is K/O only) and squfof::squfof (11 theorems, Props/C03Squfof.lean: no panic for EVERY n "
+                 "and every admissible f64 seed (named hypothesis SeedOK) after fix f24afb6; sound; proper split except the primes <= 47).")
 MODELLED = list(MODELLED) + list(q64.MODELLED) + list(sq.MODELLED)
 UNMODELLED = list(UNMODELLED) + list(q64.UNMODELLED) + list(sq.UNMODELLED)
 RULE = RULE + " || " + q64.RULE + " || " + sq.RULE
